@@ -346,8 +346,10 @@ Definition ev_good (e : event sig) : Prop :=
 Definition ho_inv (n : node sig) : Prop := 0 <= st_height (n_state n) /\ handover' n = true.
 
 Section Handover.
-(* ValidateBlock accepts only the block of the next height (state/validation.go validateBlock) *)
-Hypothesis validate_height : forall st b, validate_block st b = true -> b_height b = st_height st + 1.
+(* ValidateBlock accepts only a block above the state's height (state/validation.go validateBlock:
+   LastBlockHeight+1, or InitialHeight when LastBlockHeight = 0; both instances are below) *)
+Hypothesis validate_grows : forall st b,
+  0 <= st_height st -> validate_block st b = true -> st_height st < b_height b.
 
 Lemma step_handover : forall (n : node sig) o,
   Forall ev_good (n_log (step' (verify_commit sv) n o)) -> ho_inv n -> ho_inv (step' (verify_commit sv) n o).
@@ -356,7 +358,7 @@ Proof.
   destruct (step_cases (verify_commit sv) n o) as [[A [B _]]|[first [second [Ev [A [B C]]]]]].
   - unfold ho_inv, handover in *. rewrite A, B. auto.
   - rewrite A in Hg. apply Forall_cons_iff in Hg as [[Hwf [Hk Ha]] _].
-    apply verify_first_accept in Ev as [Hc Hv]. pose proof (validate_height _ _ Hv) as Hht.
+    apply verify_first_accept in Ev as [Hc Hv]. pose proof (validate_grows _ _ H0 Hv) as Hht.
     destruct C as [[_ C]|[nv [_ C]]]; unfold ho_inv, handover in *; rewrite B, C.
     + split; [exact H0|]. cbn [save_block load_seen se_height].
       assert (E : (b_height first =? st_height (n_state n)) = false) by lia. rewrite E. exact Hh.
@@ -386,6 +388,192 @@ Proof.
   unfold run in E. rewrite E in Hg. apply Forall_app in Hg as [_ Hg]. exact Hg.
 Qed.
 
+
+(* ---- heights never decrease along a run *)
+Lemma step_height_mono : forall vc (n : node sig) o,
+  0 <= st_height (n_state n) -> st_height (n_state n) <= st_height (n_state (step' vc n o)).
+Proof.
+  intros vc n o H0.
+  destruct (step_cases vc n o) as [[_ [B _]]|[first [second [Ev [_ [_ C]]]]]].
+  - rewrite B. lia.
+  - apply verify_first_accept in Ev as [_ Hv]. pose proof (validate_grows _ _ H0 Hv) as Hht.
+    destruct C as [[_ C]|[nv [_ C]]]; rewrite C; cbn [next_state st_height]; lia.
+Qed.
+
+Lemma run_height_mono : forall vc ops (n : node sig),
+  0 <= st_height (n_state n) -> st_height (n_state n) <= st_height (n_state (run' vc ops n)).
+Proof.
+  intros vc ops. induction ops as [|o ops IH]; intros n H0; [cbn; lia|].
+  cbn [run fold_left]. pose proof (step_height_mono vc n o H0) as H1.
+  assert (H2 : 0 <= st_height (n_state (step' vc n o))) by lia.
+  specialize (IH _ H2). unfold run in IH. lia.
+Qed.
+
 End Handover.
+
+(* ================================================================== NewState / SwitchToConsensus *)
+
+Notation reconstruct_vs' := (reconstruct_vs sv pk_addr).
+Notation new_state' := (new_state sv pk_addr).
+Notation switch' := (switch_to_consensus sv pk_addr).
+
+Lemma reconstruct_vs_of_bool : forall chain seen lv,
+  reconstruct' chain seen lv = true ->
+  exists c vs, seen = Some c /\ commit_to_voteset' chain c lv = Some vs /\ vs_maj23 vs <> None /\
+               reconstruct_vs' chain seen lv = Some vs.
+Proof.
+  intros chain seen lv. unfold reconstruct_last_commit, reconstruct_vs.
+  destruct seen as [c|]; [|discriminate].
+  destruct (commit_to_voteset' chain c lv) as [vs|] eqn:E; [|discriminate].
+  destruct (vs_maj23 vs) eqn:Em; [|discriminate]. intros _.
+  exists c, vs. repeat split; try assumption. rewrite Em. discriminate.
+Qed.
+
+Lemma reconstruct_bool_of_vs : forall chain seen lv vs,
+  reconstruct_vs' chain seen lv = Some vs -> reconstruct' chain seen lv = true.
+Proof.
+  intros chain seen lv vs. unfold reconstruct_last_commit, reconstruct_vs.
+  destruct seen as [c|]; [|discriminate].
+  destruct (commit_to_voteset' chain c lv) as [vs0|]; [|discriminate].
+  destruct (vs_maj23 vs0); [reflexivity | discriminate].
+Qed.
+
+(* LastCommit of the consensus state is the vote set made from the seen commit stored for the
+   state's last block (nil before the first block) *)
+Definition last_commit_is_seen (store : list (sentry sig)) (st : sstate) (cs : cstate) : Prop :=
+  (st_height st = 0 -> cs_last_commit cs = None) /\
+  (0 < st_height st ->
+   exists c vs, load_seen store (st_height st) = Some c /\
+                commit_to_voteset' (st_chain st) c (st_last_vals st) = Some vs /\
+                vs_maj23 vs <> None /\ cs_last_commit cs = Some vs).
+
+Lemma next_height_eq : forall ih (a b : sstate), st_height a = st_height b -> next_height ih a = next_height ih b.
+Proof. intros ih a b E. unfold next_height. rewrite E. reflexivity. Qed.
+
+(* what NewState leaves behind when it returns *)
+Lemma new_state_inv : forall ih store st cs,
+  0 <= st_height st ->
+  new_state' ih store st = Some cs ->
+  cs_commit_round cs = -1 /\ cs_height cs = next_height ih st /\ cs_state cs = Some st /\
+  (st_height st = 0 -> cs_last_commit cs = None) /\
+  (0 < st_height st ->
+   reconstruct' (st_chain st) (load_seen store (st_height st)) (st_last_vals st) = true).
+Proof.
+  intros ih store st cs H0. unfold new_state, reconstruct_if_needed.
+  destruct (st_height st >? 0) eqn:Eh.
+  - unfold cs_reconstruct.
+    destruct (reconstruct_vs' (st_chain st) (load_seen store (st_height st)) (st_last_vals st)) as [vs|] eqn:Er;
+      [|discriminate].
+    unfold update_to_state. cbn [cs_commit_round cs_height cs_state cs_votes cs_last_commit cs_zero].
+    change ((0 >? -1) && (0 <? 0)) with false. cbn [andb].
+    assert (E0 : (st_height st =? 0) = false) by lia. rewrite E0.
+    change (0 >? -1) with true. cbn [andb].
+    intro H. injection H as <-. cbn [cs_commit_round cs_height cs_state cs_last_commit].
+    repeat split; try reflexivity; try lia.
+    intros _. exact (reconstruct_bool_of_vs _ _ _ _ Er).
+  - unfold update_to_state. cbn [cs_commit_round cs_height cs_state cs_votes cs_last_commit cs_zero].
+    change ((0 >? -1) && (0 <? 0)) with false. cbn [andb].
+    destruct (st_height st =? 0) eqn:E0.
+    + intro H. injection H as <-. cbn [cs_commit_round cs_height cs_state cs_last_commit].
+      repeat split; try reflexivity; lia.
+    + change (0 >? -1) with true. cbn [andb]. discriminate.
+Qed.
+
+(* SwitchToConsensus on a consensus state that NewState built for [old], with a state [st] that is
+   not behind [old] and whose seen commit can be reconstructed *)
+Lemma switch_ok : forall ih store cs0 old st,
+  cs_commit_round cs0 = -1 -> cs_height cs0 = next_height ih old -> cs_state cs0 = Some old ->
+  (st_height old = 0 -> cs_last_commit cs0 = None) ->
+  0 <= st_height old -> (st_height old = 0 \/ ih <= st_height old) ->
+  st_height old <= st_height st ->
+  (0 < st_height st ->
+   reconstruct' (st_chain st) (load_seen store (st_height st)) (st_last_vals st) = true) ->
+  exists cs',
+    switch' ih store cs0 st = Some cs' /\
+    cs_height cs' = next_height ih st /\ cs_commit_round cs' = -1 /\
+    last_commit_is_seen store st cs'.
+Proof.
+  intros ih store cs0 old st Hcr Hch Hcs Hlc H0 Hih Hle Hrec.
+  unfold switch_to_consensus, reconstruct_if_needed.
+  destruct (st_height st >? 0) eqn:Eh.
+  - assert (Hpos : 0 < st_height st) by lia.
+    destruct (reconstruct_vs_of_bool _ _ _ (Hrec Hpos)) as [c [vs [Es [Ec [Em Er]]]]].
+    unfold cs_reconstruct. rewrite Er.
+    unfold update_to_state. cbn [cs_commit_round cs_height cs_state cs_votes cs_last_commit].
+    rewrite Hcr, Hcs. change (-1 >? -1) with false. cbn [andb].
+    assert (EA : ((st_height old >? 0) && negb (st_height old + 1 =? cs_height cs0)) = false).
+    { rewrite Hch. unfold next_height. destruct (st_height old >? 0) eqn:Eo; [|reflexivity]. cbn [andb].
+      assert (E1 : (st_height old + 1 =? 1) = false) by lia. rewrite E1, Z.eqb_refl. reflexivity. }
+    rewrite EA.
+    assert (EB : ((st_height old >? 0) && (cs_height cs0 =? ih)) = false).
+    { rewrite Hch. unfold next_height. destruct (st_height old >? 0) eqn:Eo; [|reflexivity]. cbn [andb].
+      assert (E1 : (st_height old + 1 =? 1) = false) by lia. rewrite E1.
+      destruct Hih as [Hih|Hih]; lia. }
+    rewrite EB.
+    destruct (st_height st <=? st_height old) eqn:Ele.
+    + (* nothing was synced: updateToState ignores the state, LastCommit was rebuilt *)
+      eexists. split; [reflexivity|]. cbn [cs_height cs_commit_round cs_last_commit].
+      split; [rewrite Hch; apply next_height_eq; lia|]. split; [first [exact Hcr | reflexivity]|].
+      split; [intro; lia|]. intros _. exists c, vs. auto.
+    + assert (E0 : (st_height st =? 0) = false) by lia. rewrite E0.
+      eexists. split; [reflexivity|]. cbn [cs_height cs_commit_round cs_last_commit].
+      split; [reflexivity|]. split; [reflexivity|].
+      split; [intro; lia|]. intros _. exists c, vs. auto.
+  - assert (Hz : st_height st = 0) by lia. assert (Hzo : st_height old = 0) by lia.
+    unfold update_to_state. rewrite Hcr, Hcs. change (-1 >? -1) with false. cbn [andb].
+    rewrite Hzo, Hz. change (0 >? 0) with false. cbn [andb]. change (0 <=? 0) with true. cbn iota.
+    eexists. split; [reflexivity|].
+    split; [rewrite Hch; apply next_height_eq; lia|]. split; [first [exact Hcr | reflexivity]|].
+    split; [intros _; exact (Hlc Hzo) | intro; lia].
+Qed.
+
+Section Switch.
+Variable ih : Z.
+Hypothesis ih_pos : 1 <= ih.
+(* state/validation.go validateBlock: block.Height must be InitialHeight when the state has no
+   block yet, LastBlockHeight+1 afterwards *)
+Hypothesis validate_next : forall st b, validate_block st b = true -> b_height b = next_height ih st.
+
+Lemma validate_next_grows : forall st b,
+  0 <= st_height st -> validate_block st b = true -> st_height st < b_height b.
+Proof.
+  intros st b H0 Hv. rewrite (validate_next _ _ Hv). unfold next_height.
+  destruct (st_height st + 1 =? 1) eqn:E; lia.
+Qed.
+
+Lemma run_switch : forall ops (n : node sig) cs0,
+  Forall ev_good (n_log (run' (verify_commit sv) ops n)) ->
+  0 <= st_height (n_state n) ->
+  (st_height (n_state n) = 0 \/ ih <= st_height (n_state n)) ->
+  new_state' ih (n_store n) (n_state n) = Some cs0 ->
+  exists cs',
+    switch' ih (n_store (run' (verify_commit sv) ops n)) cs0 (n_state (run' (verify_commit sv) ops n)) = Some cs' /\
+    cs_height cs' = next_height ih (n_state (run' (verify_commit sv) ops n)) /\
+    cs_commit_round cs' = -1 /\
+    last_commit_is_seen (n_store (run' (verify_commit sv) ops n)) (n_state (run' (verify_commit sv) ops n)) cs'.
+Proof.
+  intros ops n cs0 Hg H0 Hih Hns.
+  destruct (new_state_inv ih _ _ _ H0 Hns) as [Hcr [Hch [Hcs [Hlc Hrec]]]].
+  assert (Hho : ho_inv n).
+  { split; [exact H0|]. unfold handover. destruct (st_height (n_state n) >? 0) eqn:E; [|reflexivity].
+    apply Hrec. lia. }
+  destruct (run_handover validate_next_grows ops n Hg Hho) as [H0' Hh'].
+  pose proof (run_height_mono validate_next_grows (verify_commit sv) ops n H0) as Hmono.
+  apply (switch_ok ih _ cs0 (n_state n)); try assumption.
+  intro Hpos. unfold handover in Hh'.
+  assert (E : (st_height (n_state (run' (verify_commit sv) ops n)) >? 0) = true) by lia.
+  rewrite E in Hh'. exact Hh'.
+Qed.
+
+End Switch.
+
+(* the instance the first hand-over theorem was stated with (chains whose InitialHeight is 1) *)
+Lemma run_handover_plus1 :
+  (forall st b, validate_block st b = true -> b_height b = st_height st + 1) ->
+  forall ops (n : node sig),
+    Forall ev_good (n_log (run' (verify_commit sv) ops n)) -> ho_inv n -> ho_inv (run' (verify_commit sv) ops n).
+Proof.
+  intros Hv. apply run_handover. intros st b _ H. rewrite (Hv _ _ H). lia.
+Qed.
 
 End P.
